@@ -462,7 +462,15 @@ func (api *HTTP) sessionOrProxy(w http.ResponseWriter, r *http.Request, sessionI
 	}
 
 	if err != nil {
-		http.Error(w, err.Error(), http.StatusNotFound)
+		if err == ircserver.ErrSessionNotYetSeen {
+			// We are the leader, but have not applied the message which
+			// created this session yet (e.g. the log is still being replayed
+			// after a restart). Like in handleGetMessages, the client must
+			// retry instead of considering its session gone.
+			http.Error(w, err.Error(), http.StatusInternalServerError)
+		} else {
+			http.Error(w, err.Error(), http.StatusNotFound)
+		}
 	}
 	return sessionid, err
 }
